@@ -101,6 +101,15 @@ def gen_pipeline(rng, allow_ctf=True, allow_dists=True, allow_prism=False, small
     else:
         d["normalize"] = bool(rng.random() < 0.5)
         d["tilt"] = [0.0, 0.0] if rng.random() < 0.7 else rng.uniform(-10, 10, 2).round(3).tolist()
+        r = rng.random()
+        if allow_dists and r < 0.3:
+            # plane-wave tilt ensembles: one axis, both axes (two ensemble axes on the waves), or N x 2 pairs
+            form = str(rng.choice(["x", "y", "xy", "xy", "pairs"]))
+            td = {"form": form, "x": rng.uniform(-8, 8, int(rng.integers(2, 4))).round(3).tolist(),
+                  "y": rng.uniform(-8, 8, int(rng.integers(2, 4))).round(3).tolist()}
+            if form == "pairs":
+                td["y"] = rng.uniform(-8, 8, len(td["x"])).round(3).tolist()
+            d["pw_tilt_dist"] = td
         if allow_ctf and rng.random() < 0.5:
             ctf = {"defocus": float(rng.uniform(-300, 300)), "Cs": float(rng.uniform(-1e5, 1e5)),
                    "semiangle": float(rng.uniform(10, 40)), "focal_spread": float(rng.choice([0.0, rng.uniform(0, 50)]))}
@@ -233,7 +242,20 @@ def run(d, lazy, max_batch="auto"):
         if scan is None:
             return probe.multislice(pot, detectors=det, lazy=lazy, max_batch=max_batch)
         return probe.scan(pot, scan=scan, detectors=det, lazy=lazy, max_batch=max_batch)
-    pw = abtem.PlaneWave(energy=d["energy"], normalize=d["normalize"], tilt=tuple(d["tilt"]))
+    tilt = tuple(d["tilt"])
+    if "pw_tilt_dist" in d:
+        td = d["pw_tilt_dist"]
+        fx = abtem.distributions.from_values(np.array(td["x"]))
+        fy = abtem.distributions.from_values(np.array(td["y"]))
+        if td["form"] == "x":
+            tilt = (fx, tilt[1])
+        elif td["form"] == "y":
+            tilt = (tilt[0], fy)
+        elif td["form"] == "xy":
+            tilt = (fx, fy)
+        else:
+            tilt = np.array([td["x"], td["y"]]).T
+    pw = abtem.PlaneWave(energy=d["energy"], normalize=d["normalize"], tilt=tilt)
     pw.grid.match(pot)
     det = _detectors(d, pw)
     out = pw.multislice(pot, detectors=det, lazy=lazy, max_batch=max_batch)
@@ -262,4 +284,5 @@ def is_nontrivial(d):
     p = d["potential"]
     multi = p.get("num_configs", 1) > 1 or (p["kind"] == "crystal" and (p.get("num_frozen") or 1) > 1)
     scan = d.get("scan", {}).get("kind", "none") != "none"
-    return bool(multi or scan or d["exit_planes"] is not None or "defocus_dist" in d or "tilt_dist" in d or "ctf" in d)
+    return bool(multi or scan or d["exit_planes"] is not None or "defocus_dist" in d or "tilt_dist" in d or "ctf" in d
+                or "pw_tilt_dist" in d)
